@@ -177,38 +177,38 @@ theorem maximum_bar_reads (s : Maximum F) (b b' : Bar F) (hh : b.high = b'.high)
 theorem truerange_bar_reads (s : TrueRange F) (b b' : Bar F)
     (hh : b.high = b'.high) (hl : b.low = b'.low) (hc : b.close = b'.close) :
     s.nextBar b = s.nextBar b' := by
-  simp only [TrueRange.nextBar, hh, hl, hc]
+  simp only [gen_helper, TrueRange.nextBar, hh, hl, hc]
 
 theorem atr_bar_reads (s : AverageTrueRange F) (b b' : Bar F)
     (hh : b.high = b'.high) (hl : b.low = b'.low) (hc : b.close = b'.close) :
     s.nextBar b = s.nextBar b' := by
-  simp only [AverageTrueRange.nextBar, truerange_bar_reads _ b b' hh hl hc]
+  simp only [gen_helper, AverageTrueRange.nextBar, truerange_bar_reads _ b b' hh hl hc]
 
 theorem faststochastic_bar_reads (s : FastStochastic F) (b b' : Bar F)
     (hh : b.high = b'.high) (hl : b.low = b'.low) (hc : b.close = b'.close) :
     s.nextBar b = s.nextBar b' := by
-  simp only [FastStochastic.nextBar, hh, hl, hc]
+  simp only [gen_helper, FastStochastic.nextBar, hh, hl, hc]
 
 theorem slowstochastic_bar_reads (s : SlowStochastic F) (b b' : Bar F)
     (hh : b.high = b'.high) (hl : b.low = b'.low) (hc : b.close = b'.close) :
     s.nextBar b = s.nextBar b' := by
-  simp only [SlowStochastic.nextBar, faststochastic_bar_reads _ b b' hh hl hc]
+  simp only [gen_helper, SlowStochastic.nextBar, faststochastic_bar_reads _ b b' hh hl hc]
 
 theorem keltnerchannel_bar_reads (s : KeltnerChannel F) (b b' : Bar F)
     (hh : b.high = b'.high) (hl : b.low = b'.low) (hc : b.close = b'.close) :
     s.nextBar b = s.nextBar b' := by
-  simp only [KeltnerChannel.nextBar, hh, hl, hc, atr_bar_reads _ b b' hh hl hc]
+  simp only [gen_helper, KeltnerChannel.nextBar, hh, hl, hc, atr_bar_reads _ b b' hh hl hc]
 
 theorem chandelierexit_bar_reads (s : ChandelierExit F) (b b' : Bar F)
     (hh : b.high = b'.high) (hl : b.low = b'.low) (hc : b.close = b'.close) :
     s.nextBar b = s.nextBar b' := by
-  simp only [ChandelierExit.nextBar, atr_bar_reads _ b b' hh hl hc, minimum_bar_reads _ b b' hl,
+  simp only [gen_helper, ChandelierExit.nextBar, atr_bar_reads _ b b' hh hl hc, minimum_bar_reads _ b b' hl,
     maximum_bar_reads _ b b' hh]
 
 theorem cci_bar_reads (s : CommodityChannelIndex F) (b b' : Bar F)
     (hh : b.high = b'.high) (hl : b.low = b'.low) (hc : b.close = b'.close) :
     s.nextBar b = s.nextBar b' := by
-  simp only [CommodityChannelIndex.nextBar, hh, hl, hc]
+  simp only [gen_helper, CommodityChannelIndex.nextBar, hh, hl, hc]
 
 /-! ### read set: `high`, `low`, `close`, `volume` (MoneyFlowIndex) -/
 
@@ -216,14 +216,14 @@ theorem mfi_bar_reads (s : MoneyFlowIndex F) (b b' : Bar F)
     (hh : b.high = b'.high) (hl : b.low = b'.low) (hc : b.close = b'.close)
     (hv : b.volume = b'.volume) :
     s.nextBar b = s.nextBar b' := by
-  simp only [MoneyFlowIndex.nextBar, hh, hl, hc, hv]
+  simp only [gen_helper, MoneyFlowIndex.nextBar, hh, hl, hc, hv]
 
 /-! ### read set: `close`, `volume` (OnBalanceVolume) -/
 
 theorem obv_bar_reads (s : OnBalanceVolume F) (b b' : Bar F)
     (hc : b.close = b'.close) (hv : b.volume = b'.volume) :
     s.nextBar b = s.nextBar b' := by
-  simp only [OnBalanceVolume.nextBar, hc, hv]
+  simp only [gen_helper, OnBalanceVolume.nextBar, hc, hv]
 
 /-- the worded form, once: overwriting `open_` (all 22), and `volume` / `high` / `low` where they
     are not in the read set, is a special case of `x_bar_reads`; e.g. for SMA every field but
